@@ -4,6 +4,7 @@ mod gates;
 mod opseq;
 mod pauli;
 mod lattice;
+mod stateops;
 mod util;
 
 use serde_json::{json, Value};
@@ -18,6 +19,7 @@ fn dispatch(case: &Value) -> Value {
         "pauli_exp" => pauli::run_pauli_exp(case),
         "trotter" => pauli::run_trotter(case),
         "lattice" => lattice::run_lattice(case),
+        "state" => stateops::run_state(case),
         "sched" => sched(case),
         other => json!({"r": "harness_error", "e": format!("unknown op {}", other)}),
     }
